@@ -134,6 +134,10 @@ static void handler(const Line& t, Out& o) {
     }
     o.R(1); break; }
   case 19: { regs.erase((long)t.at(1)); o.R(1); break; }
+  case 20: { // the bytes of block b (serialized images, wrapped memory)
+    Buf& b = getb(t.at(1));
+    for (size_t i = 0; i < b.len; ++i) o.R((I)b.p[i]);
+    break; }
   case 21: { // create_by_accuracy r max_items fpp(bits) seed ; E: suggested bits, suggested hashes
     uint64_t n = (uint64_t)t.at(2); double p = vh::bitsd(t.at(3));
     uint64_t nb = bf_t::builder::suggest_num_filter_bits(n, p);
